@@ -507,29 +507,67 @@ def rule_iface(ctx):
 
 
 def rule_reset(ctx):
+    """what the layers do with their per-connection state when the connection events arrive, decided by delivering the
+    events through each layer's own onEvent (the handler table is the one the library's constructor builds): the noise
+    layer resets its protocol object on `disconnected`; the encryption layers' manager is gone after `disconnected` and
+    is (re)loaded from the profile on `connected`; the network layer announces the end of a connection detached"""
     repo = ctx.repo
     net = repo.cls(NET, "YowNetworkLayer")
-    EV_DISCONNECTED = alts(Evaluator(repo, net.module, net).class_const(net, "EVENT_STATE_DISCONNECTED"))[0]
+    nev = Evaluator(repo, net.module, net)
+    EV_DISCONNECTED = alts(nev.class_const(net, "EVENT_STATE_DISCONNECTED"))[0]
+    EV_CONNECTED = alts(nev.class_const(net, "EVENT_STATE_CONNECTED"))[0]
+
+    def deliver(cls, evname, layer_it=None):
+        if layer_it is None:
+            runner = LayerRunner(repo, {})
+            it = Interp(repo, {}, {}, hooks=runner.hooks())
+            it.layer_base = runner.base
+            layer = runner.make_layer(it, cls)
+        else:
+            layer, it = layer_it
+        ev = _event_obj(repo)
+        ev.fields["name"] = ("c", evname)
+        it.effects[:] = []
+        raised = None
+        try:
+            it.method_call(layer, "onEvent", [("obj", ev)], {}, {"@module": cls.module, "@owner": cls}, 0, None)
+        except _Raise as r:
+            raised = r.text
+        return layer, it, raised
     # noise layer
     nl = repo.cls(NOISE, "YowNoiseLayer")
-    fn = repo.method(NOISE, "YowNoiseLayer", "on_disconnected")
-    dec = [alts(Evaluator(repo, nl.module, nl).ev(d.args[0])) for d in fn.decorator_list if isinstance(d, ast.Call) and unparse(d.func) == "EventCallback"]
-    resets = [c for c in ast.walk(fn) if isinstance(c, ast.Call) and unparse(c.func) == "self._wa_noiseprotocol.reset"]
-    ctx.check("C16.reset", dec == [[EV_DISCONNECTED]] and len(resets) == 1, where(NOISE, "YowNoiseLayer.on_disconnected", fn.lineno), "noise protocol reset on disconnected",
-              "the noise layer must reset its protocol state on the disconnected event", "reset on disconnected")
+    wn = where(NOISE, "YowNoiseLayer", None)
+    try:
+        layer, it, raised = deliver(nl, EV_DISCONNECTED)
+        resets = [e for e in flat_effects(it.effects) if e[0] == "CALL" and e[1].split(".")[-1] == "reset" and "NoiseProtocol" in e[1]]
+        ctx.check("C16.reset", raised is None and len(resets) == 1, wn, "noise protocol reset on disconnected",
+                  "the noise layer must reset its protocol state on the disconnected event (%s)" % ("raises %s" % raised[:50] if raised else "%d reset call(s) on the protocol object" % len(resets)), "reset on disconnected")
+    except (NeedAtom, Budget, DomainGrew) as x:
+        ctx.undecided("C16.reset", wn, "noise protocol reset on disconnected", "the event's delivery could not be executed: %s" % (x,))
+    # encryption layers: the manager (read through the public `manager` property)
     ax = repo.cls(AXB, "AxolotlBaseLayer")
-    fn = repo.method(AXB, "AxolotlBaseLayer", "on_disconnected")
-    dec = [alts(Evaluator(repo, ax.module, ax).ev(d.args[0])) for d in fn.decorator_list if isinstance(d, ast.Call) and unparse(d.func) == "EventCallback"]
-    drops = [n for n in ast.walk(fn) if isinstance(n, ast.Assign) and unparse(n.targets[0]) == "self._manager" and unparse(n.value) == "None"]
-    ctx.check("C16.reset", dec == [[EV_DISCONNECTED]] and len(drops) == 1, where(AXB, "AxolotlBaseLayer.on_disconnected", fn.lineno), "axolotl manager dropped on disconnected",
-              "the encryption layers must drop their manager on the disconnected event (it is re-created on connect)", "manager dropped")
-    fn2 = repo.method(AXB, "AxolotlBaseLayer", "on_connected")
-    sets = [n for n in ast.walk(fn2) if isinstance(n, ast.Assign) and unparse(n.targets[0]) == "self._manager"]
-    ctx.check("C16.reset", len(sets) == 1 and "axolotl_manager" in unparse(sets[0].value), where(AXB, "AxolotlBaseLayer.on_connected", fn2.lineno), "manager set on connected", "the manager must be (re)loaded on connect", "manager loaded on connected")
+    wa = where(AXB, "AxolotlBaseLayer", None)
+    try:
+        layer, it, raised = deliver(ax, EV_CONNECTED)
+        m1 = it.force(it.get_attr(layer, "manager", {"@module": ax.module, "@owner": None}, 0))
+        loaded = raised is None and m1 != C_NONE and m1[0] not in ("unset",) and "profile" in show(m1)
+        ctx.check("C16.reset", loaded, wa, "manager set on connected", "the manager must be (re)loaded from the profile on connect (after the connected event it is %s)" % show(m1)[:50], "manager loaded on connected")
+        layer, it, raised2 = deliver(ax, EV_DISCONNECTED, (layer, it))
+        m2 = it.force(it.get_attr(layer, "manager", {"@module": ax.module, "@owner": None}, 0))
+        ctx.check("C16.reset", raised2 is None and m2 == C_NONE, wa, "axolotl manager dropped on disconnected",
+                  "the encryption layers must drop their manager on the disconnected event - it is re-created on connect (after the event it is %s)" % show(m2)[:50], "manager dropped")
+    except (NeedAtom, Budget, DomainGrew) as x:
+        ctx.undecided("C16.reset", wa, "manager across connections", "the events' delivery could not be executed: %s" % (x,))
     # the disconnected event is detached (delivered from the stack loop, not from inside the dispatcher callback)
-    fn3 = repo.method(NET, "YowNetworkLayer", "onDisconnected")
-    det = [k for c in ast.walk(fn3) if isinstance(c, ast.Call) and unparse(c.func) == "YowLayerEvent" for k in c.keywords if k.arg == "detached" and unparse(k.value) == "True"]
-    ctx.check("C16.reset", len(det) == 1, where(NET, "YowNetworkLayer.onDisconnected", fn3.lineno), "disconnected event is detached", "the disconnected event must be deferred (detached)", "detached")
+    from .c12_order import emitted_events
+    ex = emitted_events(repo, net, "onDisconnected")
+    wd = where(NET, "YowNetworkLayer.onDisconnected", None)
+    if ex is None:
+        ctx.undecided("C16.reset", wd, "disconnected event is detached", "the callback could not be executed")
+    else:
+        evs = [(n_, d_) for (n_, d_, _st) in ex if n_ == EV_DISCONNECTED]
+        ctx.check("C16.reset", bool(evs) and all(d_ for _n, d_ in evs), wd, "disconnected event is detached",
+                  "the disconnected event must be deferred (detached): %s" % ("it is never announced" if not evs else "announced not detached"), "detached")
 
 
 def rule_reset_buffers(ctx):
@@ -589,21 +627,16 @@ def rule_reset_buffers(ctx):
             continue
         n += 1
         w = where(L.relpath, L.name, None)
-        handlers = []
-        for k in repo.mro(L):
-            for mname, fn in k.methods.items():
-                for d in fn.decorator_list:
-                    if isinstance(d, ast.Call) and unparse(d.func).split(".")[-1] == "EventCallback" and d.args:
-                        a = alts(Evaluator(repo, k.module, k).ev(d.args[0]))
-                        if a and a[0] == EV_DISCONNECTED and mname not in [h for h in handlers]:
-                            handlers.append(mname)
+        # the handler is whatever the layer's own constructor registered for the event (decorators applied by the
+        # interpreter); the event is delivered through onEvent
+        ec = layer[1].fields.get("event_callbacks")
+        handlers = [v_[2] for k_, v_ in (ec[1].items() if ec is not None and ec[0] == "dict" else []) if k_ == EV_DISCONNECTED and v_[0] == "bound"]
         left = None
         if handlers:
             ev = _event_obj(repo)
             ev.fields["name"] = ("c", EV_DISCONNECTED)
             try:
-                for h in handlers:
-                    it.method_call(layer, h, [("obj", ev)], {}, {"@module": L.module, "@owner": L}, 0, None)
+                it.method_call(layer, "onEvent", [("obj", ev)], {}, {"@module": L.module, "@owner": L}, 0, None)
             except _Raise as r:
                 left = "the handler raises %s" % r.text[:50]
             if left is None:
